@@ -149,3 +149,18 @@ def run_purity_model(req):
 
 
 HANDLERS.update({"purity_metric": run_purity_metric, "purity_model": run_purity_model})
+
+
+def run_metric_family(req):
+    from opfython.math import distance as d
+    f = d.DISTANCES[req["cfg"]["metric"]]
+    x, y, u, v = (np.array(req[k], dtype=float) for k in ("x", "y", "u", "v"))
+    S1, S2 = float(np.sum((x - y) ** 2)), float(np.sum((u - v) ** 2))
+    a, b = float(f(x, y)), float(f(u, v))
+    bad = []
+    if (S1 < S2) != (a < b) and abs(S1 - S2) > 1e-9 * max(1.0, S1, S2):
+        bad.append("strictly-increasing-in-the-squared-euclidean-distance")
+    return dict(obs=dict(S1=S1, S2=S2, a=a, b=b), violated=bad)
+
+
+HANDLERS["metric_family"] = run_metric_family
